@@ -68,6 +68,22 @@ inline Path64 randomPath(int nmin, int nmax, int64_t R, int64_t cx = 0, int64_t 
   return p;
 }
 
+// sizes at and around powers of two: counters, block sizes and capacity thresholds live there
+inline int boundarySize() {
+  static const std::vector<int64_t> sz = {63, 64, 65, 127, 128, 129, 130, 255, 256, 257, 258, 300};
+  return (int)G::oneOf(sz);
+}
+// a zig-zag polyline of n vertices, monotone in x (so it never crosses itself), spanning [-R,R] in both directions
+inline Path64 zigzag(int n, int64_t R) {
+  Path64 p;
+  for (int k = 0; k < n; ++k) {
+    int64_t x = -R + (2 * R * k) / std::max(1, n - 1) + (k > 0 && k + 1 < n ? G::sym(std::max<int64_t>(1, R / (2 * n))) : 0);
+    int64_t y = (k % 2 ? 1 : -1) * G::range(R / 4, R);
+    p.emplace_back(x, y);
+  }
+  return p;
+}
+
 // make some edges exactly horizontal / vertical (still general position: the predicate decides)
 inline void axisAlignSome(Path64& p, int percent) {
   for (size_t k = 1; k < p.size(); ++k) {
@@ -130,8 +146,18 @@ inline GpCase gpCandidate(int64_t R) {
   if (kind == 12) {
     // large: two rings of 40-160 vertices with many mutual crossings (solutions with hundreds of vertices: container
     // growth, block boundaries and anything else that depends on size)
+    if (G::chance(40)) {
+      // two zig-zags whose long edges all span the same horizontal band: hundreds of edge crossings between two
+      // consecutive scanlines (the per-scanbeam intersection list, its sort and its processing order)
+      c.shape = "large_zigzag_pair";
+      // (x is random, not monotone: almost every pair of the long edges crosses inside the middle band)
+      auto fan = [&](int n) { Path64 p; for (int k = 0; k < n; ++k) p.emplace_back(G::sym(R), (k % 2 ? 1 : -1) * G::range(R / 2, R)); return p; };
+      c.subj.push_back(fan((int)G::range(20, 46)));
+      if (G::coin()) c.clip.push_back(fan((int)G::range(4, 30))); else c.clip.push_back(zigzag((int)G::range(4, 30), R));
+      return c;
+    }
     c.shape = "large_rings";
-    c.subj.push_back(ring((int)G::range(40, 160), G::sym(R / 6), G::sym(R / 6), 0.55 * R, 0.9 * R, G::coin()));
+    c.subj.push_back(ring(G::coin() ? boundarySize() : (int)G::range(40, 160), G::sym(R / 6), G::sym(R / 6), 0.55 * R, 0.9 * R, G::coin()));
     c.clip.push_back(ring((int)G::range(40, 160), G::sym(R / 6), G::sym(R / 6), 0.55 * R, 0.9 * R, G::coin()));
   } else if (kind == 11) {
     c.shape = "dense";   // many edges and crossings per path (needs a large range to stay in general position)
